@@ -178,7 +178,11 @@ func globCmd(args []string) error {
 			continue
 		}
 		st.Trees++
+		// the project directory's own name may look like a pattern: it is not part of any
 		root := filepath.Join(tmp, fmt.Sprintf("t%d", mask))
+		if mask%2 == 1 {
+			root = filepath.Join(tmp, fmt.Sprintf("t[%d]{a,b}*", mask))
+		}
 		os.MkdirAll(root, 0o755)
 		var enc []string
 		kinds := map[string]bool{".": true} // path -> isDir, for every entry of the tree
